@@ -196,7 +196,8 @@ class Driver:
         self.ev += [code, a, b]
         return code
 
-    def poll_until_blocked(self, limit=64):
+    def poll_until_blocked(self, limit=None):
+        limit = limit or (len(self.refs) + 64)
         """poll while objects keep coming; returns the last code"""
         code = None
         for _ in range(limit):
